@@ -24,6 +24,7 @@ func init() {
 	workloadFeatures["c12"] = featC12
 	workloadFeatures["whale-exit"] = featWhaleExit
 	workloadFeatures["c15"] = featC15
+	workloadFeatures["avg-unavailable"] = featAvgUnavailable
 	workloadFeatures["overflow-conversion"] = featOverflow
 	workloadFeatures["spr-impostor"] = featImpostor
 	workloadFeatures["oob-pre202"] = featOutOfBand
@@ -388,6 +389,60 @@ func featC13(m *gen.Mixed, ts *gen.TieSetup, p *modelParams) {
 				}
 			})
 		}
+	}
+}
+
+// featAvgUnavailable: after PIP-10 one asset (pXBT) is zeroed by the 25 % band for most of an
+// averaging window and then comes back: its spot rate is non-zero but its average is unavailable, so
+// conversions into it (source average available) and out of it must have no effect.
+func featAvgUnavailable(m *gen.Mixed, ts *gen.TieSetup, p *modelParams) {
+	e := m.W.Eras
+	rng := rand.New(rand.NewSource(p.Seed ^ 0xa06))
+	ks := keys("avgun", p.Seed, 6)
+	fundMany(m, ts.Whale, e.TxConv+6, ks, func(i int) uint64 { return 3_000 * 1e8 })
+	start := e.PIP10 + 14
+	for h := start; h < start+9; h++ {
+		h := h
+		m.ForceGraded[h] = true
+		m.Schedule(h, func(v *gen.View, s *forge.BlockSpec) {
+			if len(s.SPR) < 25 || len(s.OPR) < 25 {
+				return
+			}
+			sp := map[string]uint64{}
+			for k, x := range m.W.Prices {
+				sp[k] = x
+			}
+			sp["XBT"] = m.W.Prices["XBT"] * 2 // OPR far below the staking price: outside the band, rate recorded as 0
+			var st []forge.Key
+			for _, a := range gen.TopPEG(v.Balances, 100) {
+				for _, k := range m.Actors {
+					if k.FA() == a && !k.IsEth() {
+						st = append(st, k)
+					}
+				}
+			}
+			if len(st) > 30 {
+				st = st[:30]
+			}
+			if len(st) >= 25 {
+				s.SPR = m.W.StdSPRs(h, st, sp)
+			}
+		})
+	}
+	for h := start + 8; h < start+16; h++ {
+		h := h
+		m.ForceGraded[h] = true
+		m.ForceGraded[h+1] = true
+		m.Schedule(h, func(v *gen.View, s *forge.BlockSpec) {
+			k := ks[rng.Intn(len(ks))]
+			if v.Balances.Get(k.FA(), fat2.PTickerUSD) > 2e8 {
+				s.Tx = append(s.Tx, forge.SignedBatch([]forge.Tx{forge.Conversion(k.FA(), fat2.PTickerUSD, 1e8+uint64(rng.Intn(1e6)), fat2.PTickerXBT)}, m.W.EntryTime(h)+96, k))
+			}
+			// and one out of pXBT by somebody who holds some (the whale converted into pXBT early on in some profiles)
+			if bal := v.Balances.Get(ts.Whale.FA(), fat2.PTickerXBT); bal > 1000 {
+				s.Tx = append(s.Tx, forge.SignedBatch([]forge.Tx{forge.Conversion(ts.Whale.FA(), fat2.PTickerXBT, 1000, fat2.PTickerUSD)}, m.W.EntryTime(h)+97, ts.Whale))
+			}
+		})
 	}
 }
 
